@@ -300,10 +300,10 @@ Example C01_cartesian_domain_satisfiable :
   0 < norm /\ 98 / 100 * el_a el <= sqrt (norm * norm + 2000000 * 2000000) /\ Rabs 2000000 <= 600 * norm.
 Proof. exact cartesian_domain_example. Qed.
 
-(* ---- syntactic tie of the forward map to the current source (gen/SrcFuns.v is regenerated from the clang AST of
+(* ---- syntactic tie of the forward map to the current source (gen/SrcFunsC01.v is regenerated from the clang AST of
    src/geodesy/ECEFConverter.cpp on every run) ---- *)
-From Romea Require Import SrcTie.
-From Romea.gen Require Import SrcFuns.
+From Romea Require Import SrcTie SrcTieC01.
+From Romea.gen Require Import SrcFunsC01.
 
 Theorem C01_source_tie_toECEF : forall (el : ellipsoid (T:=R)) (g : geodetic (T:=R)),
   src_toECEF ROps (el_a el) (el_e2 el) (g_alt g) (g_lat g) (g_lon g)
@@ -313,7 +313,6 @@ Print Assumptions C01_source_tie_toECEF.
 
 (* the INVERSE map, loop included: ECEFConverter::toWGS84 regenerated from the clang AST (the while loop becomes a local
    fix on the fuel argument) is the model's toWGS84 for every fuel; None = the loop is still running after `fuel` passes *)
-From Romea Require Import SrcTieLoops.
 Theorem C01_source_tie_toWGS84 : forall fuel (el : ellipsoid (T:=R)) (p : vec3 (T:=R)),
   src_ecefToWGS84 ROps fuel (vx p) (vy p) (vz p) (el_a el) (el_e2 el)
   = match toWGS84 ROps fuel el p with None => None | Some g => Some (g_lat g, g_lon g, g_alt g) end.
